@@ -39,10 +39,11 @@ class AstToSqlAlchemyOrmVisitor(common._CommonVisitors, visitor.NodeVisitor):
         rel_attr = self.visit(node.owner)
         # Owner is an InstrumentedAttribute, hopefully of a relationship.
         # But we need the model pointed to by the relationship.
-        prop_inspect = inspect(rel_attr).property
+        prop_inspect = getattr(inspect(rel_attr, raiseerr=False), "property", None)
         if not isinstance(prop_inspect, RelationshipProperty):
-            # TODO: new exception:
-            raise ValueError(f"Not a relationship: {node.owner}")
+            # The owner is a plain column (or no mapped attribute at all), so
+            # it has no field called `node.attr`:
+            raise ex.InvalidFieldException(node.attr)
         self.join_relationships.append(rel_attr)
 
         # We'd like to reference the column on the related class:
@@ -74,7 +75,11 @@ class AstToSqlAlchemyOrmVisitor(common._CommonVisitors, visitor.NodeVisitor):
     def visit_CollectionLambda(self, node: ast.CollectionLambda) -> ClauseElement:
         ":meta private:"
         owner_prop = self.visit(node.owner)
-        collection_model = inspect(owner_prop).property.entity.class_
+        owner_inspect = getattr(inspect(owner_prop, raiseerr=False), "property", None)
+        if not isinstance(owner_inspect, RelationshipProperty):
+            # any()/all() over something that is not a collection of entities:
+            raise ex.TypeException(type(node.operator).__name__, str(node.owner))
+        collection_model = owner_inspect.entity.class_
 
         if node.lambda_:
             # For the lambda, we want to strip the identifier off, because
